@@ -37,11 +37,11 @@ for p in props:
                 'Static analysis of /repo/kfac on every run (no execution of kfac-pytorch): ' + m.TECHNIQUE +
                 '. Decides the structural clauses listed in DESIGN.md for this property on every path / every rank role '
                 'at once; clauses about runtime values are declared not decided (see level_note).'),
-            'design_ref': f'DESIGN.md section 3 ({pid})',
+            'design_ref': f'DESIGN.md section 4 ({pid})',
         },
-        'level_note': m.LEVEL_NOTE if hasattr(m, 'LEVEL_NOTE') else
-            'Trusted base: assumptions A1-A6 of DESIGN.md 1.3 (SPMD launch, torch operator semantics, mypy receiver types). '
-            'Not decided: numerical values / tolerances and anything quantifying over runtime integers.',
+        'level_note': 'Trusted base: assumptions A1-A6 of DESIGN.md section 3 (SPMD launch with equal arguments, user-supplied groups contain the rank, torch operator '
+                      'semantics of the modelled vocabulary, exceptions abort the job, hash(int) process-independent, mypy receiver classes). '
+                      'Decides structural necessary conditions only. NOT decided for this property: ' + getattr(m, 'NOT_DECIDED', 'runtime values') + '.',
         'technique': 'static analysis: ' + m.TECHNIQUE,
     })
 
